@@ -238,6 +238,111 @@ def case_scaling(ctx, cfg):
 
 
 # ---------------------------------------------------------------------------------------------------
+# affine_transform(matrix, offset): the public constructor every other constructor goes through. p -> M p + v for every
+# small integer matrix (singular ones included: the matrix is still what the caller asked for), every lattice offset, every
+# argument form (matrix only, offset only, both; positional / keyword; list / tuple / ndarray) and dtype mix.
+
+
+def enum_affine(tier, seed):
+    deep = tier == "thorough"
+    ent = (-1, 0, 1, 2) if deep else (-1, 0, 2)
+    for dim in (2, 3):
+        if dim == 2:
+            mats = [((a, b), (c, d)) for a, b, c, d in itertools.product(ent, repeat=4)]
+        else:
+            base = [((1, 0, 0), (0, 1, 0), (0, 0, 1)), ((0, -1, 0), (1, 0, 0), (0, 0, 1)), ((1, 2, 0), (0, 1, -1), (0, 0, 2)),
+                    ((2, -1, 1), (0, 3, 1), (1, 1, -2)), ((0, 0, 1), (1, 0, 0), (0, 1, 0)), ((1, 1, 1), (1, 1, 1), (0, 0, 0)),
+                    ((1, 2, 3), (4, 5, 6), (7, 8, 10))]
+            mats = base + ([tuple(tuple(-x for x in r) for r in m) for m in base] if deep else [])
+        offs = affine_pts(dim, 1) if dim == 2 else [(0, 0, 0), (1, -2, 3), (-1, 0, 2), (0, 0, -1)]
+        for m in mats:
+            for v in offs:
+                for form in ("both_int", "both_float", "int_m_float_v", "float_m_int_v", "kw_lists", "complex_m"):
+                    yield (dim, m, v, form)
+        for v in offs:
+            for form in ("offset_only_int", "offset_only_float"):
+                yield (dim, None, v, form)
+        for m in mats:
+            for form in ("matrix_only_int", "matrix_only_float"):
+                yield (dim, m, None, form)
+
+
+@family("C08", "affine_transform", enum_affine)
+def case_affine(ctx, cfg):
+    import geometer as G
+
+    dim, m, v, form = cfg
+    ctx.state(cfg)
+    ctx.tally(form)
+    inputs = {"dim": dim, "matrix": m, "offset": v, "form": form}
+    M0 = None if m is None else np.array(m)
+    v0 = None if v is None else np.array(v)
+    if form == "both_int":
+        args, kw = (M0, v0), {}
+    elif form == "both_float":
+        args, kw = (M0.astype(float) / 2, v0.astype(float) / 2), {}
+    elif form == "int_m_float_v":
+        args, kw = (M0, v0 + 0.5), {}
+    elif form == "float_m_int_v":
+        args, kw = (M0 + 0.25, v0), {}
+    elif form == "kw_lists":
+        args, kw = (), {"offset": tuple(v), "matrix": [list(r) for r in m]}
+    elif form == "complex_m":
+        args, kw = (M0 * (1 + 2j), v0), {}
+    elif form == "offset_only_int":
+        args, kw = (), {"offset": list(v)}
+    elif form == "offset_only_float":
+        args, kw = (None, v0 / 4), {}
+    elif form == "matrix_only_int":
+        args, kw = (M0,), {}
+    else:
+        args, kw = (), {"matrix": M0 * 1.5}
+    a_m = args[0] if len(args) > 0 else kw.get("matrix")
+    a_v = args[1] if len(args) > 1 else kw.get("offset")
+    Mx = np.eye(dim) if a_m is None else np.array(a_m)
+    vx = np.zeros(dim, dtype=int) if a_v is None else np.array(a_v)
+    saved = [None if x is None else np.array(x, copy=True) for x in (a_m, a_v)]
+    t, e = ctx.call(G.affine_transform, *args, **kw)
+    ctx.trace()
+    want = np.zeros((dim + 1, dim + 1), dtype=np.result_type(Mx.dtype if a_m is not None else np.int_, vx.dtype))
+    want[:-1, :-1] = Mx
+    want[:-1, -1] = vx
+    want[-1, -1] = 1
+    if e is not None or type(t) is not G.Transformation or t.array.shape != want.shape or not np.array_equal(t.array, want):
+        ctx.fail(f"affine_transform:matrix:{form}", "affine_transform", inputs, want, e if e is not None else getattr(t, "array", t))
+        return
+    if t.array.dtype.kind != want.dtype.kind:
+        ctx.fail(f"affine_transform:dtype:{form}", "affine_transform", inputs, str(want.dtype), str(t.array.dtype))
+        return
+    for x, s in zip((a_m, a_v), saved):
+        if isinstance(x, np.ndarray) and not np.array_equal(x, s):
+            ctx.fail(f"affine_transform:argument-modified:{form}", "affine_transform", inputs, s, x)
+            return
+    pts = affine_pts(dim, 1)
+    P = G.PointCollection(np.array([list(p) + [1] for p in pts], dtype=float))
+    img, e = ctx.call(lambda: t * P)
+    ctx.trace(len(pts))
+    if e is not None:
+        ctx.fail("affine_transform:apply-raises", "t*p", inputs, "points", e)
+        return
+    for i, p in enumerate(pts):
+        exp = np.append(Mx @ np.array(p) + vx, 1)
+        got = img.array[i]
+        if not proj_eq(got, exp, 1e-12):
+            ctx.fail(f"affine_transform:image:{form}", "t*p", {**inputs, "p": p}, exp, got)
+            return
+    # a single finite point and a direction: M p + v and M d
+    q, e = ctx.call(lambda: t * G.Point(*[2, -3, 5][:dim]))
+    d, e2 = ctx.call(lambda: t * G.Point(np.array([1, -2, 3][:dim] + [0])))
+    eq = np.append(Mx @ np.array([2, -3, 5][:dim]) + vx, 1)
+    ed = np.append(Mx @ np.array([1, -2, 3][:dim]), 0)
+    if e is not None or not proj_eq(q.array, eq, 1e-12):
+        ctx.fail(f"affine_transform:single-point:{form}", "t*p", inputs, eq, e if e is not None else q.array)
+    elif np.any(ed != 0) and (e2 is not None or not proj_eq(d.array, ed, 1e-12)):
+        ctx.fail(f"affine_transform:direction:{form}", "t*d", inputs, ed, e2 if e2 is not None else d.array)
+
+
+# ---------------------------------------------------------------------------------------------------
 
 
 def enum_reflection(tier, seed):
